@@ -121,6 +121,9 @@ func corpus(hostileNames []string, full bool) []corpIface {
 	}
 	add("VRes3", true, []string{"string", "int", "error"}, p("a", "int"), p("v", "string"))
 	add("VOnlyErr", true, []string{"error"}, p("v", "any"))
+	// fixed parameters of nillable types in front of a variadic tail (a nil there must reach callbacks as nil)
+	add("VLeadIface", true, []string{"int"}, p("c", "io.Reader"), p("e", "error"), p("v", "string"))
+	add("VLeadNillables", true, nil, p("x", "any"), p("m", "map[string]int"), p("f", "func()"), p("q", "*LT"), p("v", "int"))
 	// unnamed and blank parameters
 	add("Unnamed", false, []string{"int"}, p("", "int"), p("", "string"))
 	add("Blank", false, []string{"int"}, p("_", "int"), p("_", "string"))
